@@ -304,3 +304,21 @@ CHECKS["C13"] = dict(
     assumptions=MT_ASSUME + ["continuations submitted concurrently with or after the release are the application's race and are not generated"],
     deadline=dict(quick=200, thorough=1200),
 )
+
+CHECKS["C10"] = dict(
+    quick=[R("h_signal", "bound=2 steps=3 hacts=1", sched=True)],
+    thorough=[R("h_signal", "bound=3 steps=4 hacts=2 methods=1", sched=True)],
+    rule="14 interest configurations (1-3 interests for one signal, plus one USR1 + three USR2 interests in all 24 registration orders: shared / exclusive / this-thread / this-thread+exclusive, spread over two "
+         "loop threads, optionally one of them registered later) x driver programs of up to 3-4 steps (deliver to loop 0 / loop 1 / a thread "
+         "without a loop, register, unregister, a forked child raising the signal) x handler actions (signal arrives again during the handler, "
+         "unregister self, unregister another interest of the same loop) x every schedule within the bound",
+    explanation="sequential reference model of the documented fan-out (per-thread set first if the receiving thread has an interest, exclusive "
+                "interests first and exclusively, hand-off of a noted delivery when an exclusive interest is unregistered - within its set); "
+                "obligations checked when all threads are idle; handler count bounded by deliveries noted; default disposition restored after "
+                "the last unregister; a forked child's raise leaves the parent untouched",
+    assumptions=MT_ASSUME + ["register, unregister and the signal handler run as atomic scheduler steps (signals are blocked inside them anyway); "
+                             "their order relative to each other and to the loops' processing is what is enumerated; overlapping at instruction "
+                             "level is C14's", "a signal is delivered by the receiving thread raising it on itself at its next scheduling point",
+                             "hand-off across sets (per-thread vs process-wide) is not demanded (DESIGN.md scoping decision)"],
+    deadline=dict(quick=150, thorough=900),
+)
